@@ -19,6 +19,7 @@ ALL_CLASSES = ["honest", "honest_switch", "conflict_content", "conflict_last_fla
                "second_last_marker", "garbage", "undecodable_txs", "no_parent", "switch_to_self", "switch_twice",
                "parent_not_earlier"]
 BAD_CLASSES = [c for c in ALL_CLASSES if not c.startswith("honest")]
+MIN_SLICES = {"honest_switch": 2, "switch_to_self": 2, "switch_twice": 3}   # smallest block shape a class exists for
 
 # fixed embeddings of the model's groups of shreds into the real 64 shreds of a slice
 E4 = [(0, 15), (16, 31), (32, 47), (48, 63)]                 # 2-of-4: data halves / coding halves
@@ -63,7 +64,7 @@ def run_model(ctx, name, blocks, max_n, classes, switch_in=True, vias=("node", "
     w = wrapper(blocks, classes, vias)
     if witnesses:
         ws = ["W_HonestDone", "W_DoneThenBad"] + [f"W_bad_{c}" for c in BAD_CLASSES
-                                                  if c in classes and (c != "switch_twice" or max_n >= 3)]
+                                                  if c in classes and max_n >= MIN_SLICES.get(c, 1)]
         ctx.witness(name, "MC_Blockstore", cfg(max_n, switch_in, [], False), w, ws, workers=2)
     r = ctx.tlc(name, "MC_Blockstore", cfg(max_n, switch_in, INVS, True), w, workers=workers, timeout=timeout)
     args = ["replay-blockstore", "--tlc-out", r.out_path, "--seed", ctx.seed, "--model", name]
@@ -80,7 +81,7 @@ def run_model(ctx, name, blocks, max_n, classes, switch_in=True, vias=("node", "
     oc = rep.get("outcomes", {})
     need = []
     for c in classes:
-        if c == "switch_twice" and max_n < 3:
+        if max_n < MIN_SLICES.get(c, 1):
             continue
         need.append(f"{c}:ev:FirstShred")
         if c.startswith("honest"):
